@@ -538,6 +538,7 @@ class SequenceAgent(object):
 
 class BuilderEngine(object):
     prop = PROP
+    isolate_runs = True  # every run in a forked child of the worker (no state leaks from run to run)
 
     def __init__(self, seed=0, mode="random", max_len=2):
         self.seed = seed
